@@ -137,6 +137,27 @@ $GEN{$NH(a int)}{int}{
 	}
 	$RET
 }`, entries: []*Entry{drive("$NH", "int", 1, nil)}},
+	// partial redeclarations whose re-used variable needs the typed context of the assignment (untyped constants, nil)
+	{name: "mixed-define-redeclared-typed-variable-with-untyped-constant", decls: baseGen + `
+$GEN{$NH(a int)}{int}{
+	var n float64
+	var p *int
+	var b tr.MyInt
+	getn := func() int { return int(n * 2) }
+	$YIELD{1}
+	n, m := 1, a
+	$YIELD{getn() + m}
+	p, q := nil, a+1
+	b, c := 3, "x"
+	if p == nil {
+		$YIELD{q + int(b) + len(c)}
+	}
+	n, k, ok := 2.5, a, true
+	if ok {
+		$YIELD{getn() + k}
+	}
+	$RET
+}`, entries: []*Entry{drive("$NH", "int", 1, nil)}},
 	// the body declares the loop variable again TOGETHER WITH a new name (legal next to the first declaration, so a
 	// lowering that puts both into one scope still builds) after closures captured the range variable
 	{name: "range-define-redeclared-with-new-name-after-capture", decls: baseGen + `
@@ -836,6 +857,13 @@ var injections = []injection{
 	// the API function used as a value: every yield made through the value is invisible to the compiler
 	{name: "yield-function-value-called", stmt: "f := $YIELDFN{int}\n\tf(5)\n\ttr.Ev(1, a)"},
 	{name: "yield-function-value-passed-as-argument", stmt: "func(f func(int), v int) {\n\t\tf(v)\n\t\tf(v + 1)\n\t}($YIELDFN{int}, 6)"},
+	// defer inside statements that contain no yield and are therefore emitted unchanged (inside a generated thunk):
+	// the deferred call must still run when the GENERATOR returns, not when the thunk does
+	{name: "defer-in-yield-free-for-loop", stmt: "for i := 0; i < 2; i++ {\n\t\tdefer tr.Ev(1, i)\n\t}\n\ttr.Ev(2)"},
+	{name: "defer-in-yield-free-range-over-slice", stmt: "for i := range []int{7, 8} {\n\t\tdefer tr.Ev(1, i)\n\t}\n\ttr.Ev(2)"},
+	{name: "defer-in-yield-free-native-range", stmt: "parr := &[2]int{7, 8}\n\tfor i := range parr {\n\t\tdefer tr.Ev(1, i)\n\t}\n\ttr.Ev(2)"},
+	{name: "defer-in-yield-free-switch-case", stmt: "switch {\n\tcase a >= 0:\n\t\tdefer tr.Ev(1, a)\n\t}\n\ttr.Ev(2)"},
+	{name: "defer-in-yield-free-block", stmt: "{\n\t\tdefer tr.Ev(1, a)\n\t}\n\ttr.Ev(2)"},
 	// the yield itself is the operand of defer: in the bare host it is the generator's ONLY yield
 	{name: "defer-yield-call", stmt: "defer $YIELD{5}\n\ttr.Ev(1, a)"},
 	{name: "defer-closure-yielding", stmt: "defer func() {\n\t\t$YIELD{6}\n\t}()\n\ttr.Ev(1, a)"},
